@@ -12,7 +12,7 @@
   3. CLI glue: exit status, print-before-fail, radix parsing, configuration
      mapping (by data-flow on MIR).
 """
-from .. import absint, step, shapes, mirutil, depend
+from .. import absint, step, shapes, mirutil, depend, panics
 from .. import domain as D
 from ..domain import Agg, En, Ref, TOP, BOT, Arr, Str, Opaque
 from ..facts import AnchorMissing
@@ -473,5 +473,34 @@ def run(ctx):
                 r.f[exp_fields.index("output_ff")] == ff
             chk.ob("cli/expectations/%s" % label, ok,
                    "--state/--fe/--ff become exactly the state/FE/FF expectations", xb.loc(), "%r" % (r,))
+    # the command line reaches run/verify as written: an option of `run` that may be given several times (--interrupt, --reset)
+    # takes exactly one value per occurrence - without that bound clap keeps consuming the following words as values, and the
+    # `verify` sub-command (or the program path) after `--reset N` is swallowed: the tool exits 1 although nothing failed
+    ab = p.need_body("<B::args::RunArgs as structopt::StructOptInternal>::augment_clap")
+    segs = []
+    for bb_, t_ in mirutil.calls_in(ab):
+        d_ = mirutil.callee_def(t_) or ""
+        if "clap::args::arg::Arg" not in d_:
+            continue
+        m_ = d_.rsplit("::", 1)[-1]
+        if m_ == "with_name":
+            segs.append({"name": panics.str_const_of(ab, t_["args"][0]) if t_["args"] else None, "calls": []})
+        elif segs:
+            cv = mirutil.const_of(t_["args"][1]) if len(t_["args"]) > 1 else None
+            segs[-1]["calls"].append((m_, cv))
+    bad_cli = []
+    nmulti = 0
+    for sg in segs:
+        names = [c_[0] for c_ in sg["calls"]]
+        multi = any(c_[0] == "multiple" and c_[1] in (1, True) for c_ in sg["calls"])
+        if "long" in names and multi:
+            nmulti += 1
+            if ("number_of_values", 1) not in sg["calls"]:
+                bad_cli.append("--%s may occur several times without a fixed number of values per occurrence" % sg["name"])
+    chk.ob("cli/multi-option-one-value", not bad_cli and nmulti >= 2,
+           "every repeatable option of `run` takes exactly one value per occurrence, so the words after it (the verify "
+           "sub-command) are never consumed as further values", ab.loc(),
+           "; ".join(bad_cli) or "%d repeatable options, each with number_of_values(1)" % nmulti,
+           "builder calls of the generated clap definition (MIR of StructOptInternal::augment_clap), per argument")
     chk.sample({"scenario": "budget-4-mixed", "interrupts": [1, 3, 3], "resets": [0, 3],
                 "expected call log per cycle": [["reset"], ["interrupt"], [], ["interrupt", "reset"]]})
